@@ -1,4 +1,5 @@
 import RawPanelVerif.Lemmas.OutCaps
+import RawPanelVerif.Lemmas.OutUtf8
 /-! Section-by-section lemmas for `encOut_sound` (C03): the reader on every kind of produced line. -/
 namespace RawPanelVerif.OutLemmas
 open RawPanelVerif RawPanelVerif.Bytes RawPanelVerif.MsgOut RawPanelVerif.EncOut RawPanelVerif.DecOut
@@ -553,6 +554,18 @@ theorem R_svg2 (o : OutOracle) (s : Bytes) (h : okSvg s = true) :
   · exact R_payload_content o _ kSvgbase s _ (by decide) (by decide) (C07.stripSvg_no_lf s) (content_stripSvg_ascii s h)
   · exact R_svg o s h
 
+/-! ### payloads of the whole domain: valid UTF-8 (`payloadOk`), any line structure, multi-byte white space included -/
+
+/-- `key=<flattened payload>` under the guard of the C07 content theorem -/
+theorem R_payloadJ (o : OutOracle) (key kq s : Bytes) (hkq : kq = key ++ [61]) (hk : key ∈ payloadKeys) (h : Strip.JoinSafe s) :
+    R o [kq ++ Strip.stripLineBreaks s] = payloadEff key s :=
+  R_payload_content o key kq s _ hkq hk (C07.strip_no_lf s) (Strip.contentOf_strip s h)
+
+/-- the SVG line, for EVERY byte string -/
+theorem R_svgAll (o : OutOracle) (s : Bytes) :
+    R o [kSvgbase ++ Strip.stripLineBreaksSvg s] = payloadEff (asc "_panelTopology_svgbase") s :=
+  R_payload_content o _ kSvgbase s _ (by decide) (by decide) (C07.stripSvg_no_lf s) (Strip.contentOf_stripSvg s)
+
 /-! ### network configuration -/
 theorem R_netCfg (o : OutOracle) (c : NetCfg) (h1 : o.netOfJson (o.jsonOfNet c) = some c) (h2 : noLF (o.jsonOfNet c) = true)
     (h3 : o.jsonOfNet c ≠ []) :
@@ -945,8 +958,9 @@ theorem R_runTime (o : OutOracle) (r : RunTimeStats)
     R_num0Line o (asc "_sessionUptimeMin") kSessionUp _ (by decide) (by decide) h3,
     R_num0Line o (asc "_screenSaverOnMin") kScreenSaver _ (by decide) (by decide) h4]
 
-/-- payload fields covered by the theorem: ASCII text with ANY line / white-space structure, or arbitrary bytes on which
-the flattening is the identity (no LF, no white space at the ends; SVG: empty or ending in `>`) -/
+/-- payload fields covered by the earlier, narrower theorem `msg_sound`: ASCII text with ANY line / white-space structure,
+or arbitrary bytes on which the flattening is the identity (no LF, no white space at the ends; SVG: empty or ending in
+`>`).  `msg_sound_full` no longer needs it: the domain's `payloadOk` (valid UTF-8) suffices. -/
 def flatMsg (m : OutMsg) : Bool :=
   optOk m.topology (fun t => okSvg t.svgbase && okPayload t.json) && optOk m.burnin okPayload &&
   optOk m.calibration okPayload && optOk m.defaultCalibration okPayload && optOk m.errorMsg okPayload &&
@@ -959,6 +973,13 @@ theorem R_optPayload (o : OutOracle) (key kq : Bytes) (x : Option Bytes) (hkq : 
   | none => rfl
   | some j => exact R_payload2 o key kq j hkq hk h
 
+theorem R_optPayloadU (o : OutOracle) (key kq : Bytes) (x : Option Bytes) (hkq : kq = key ++ [61]) (hk : key ∈ payloadKeys)
+    (h : optOk x payloadOk = true) :
+    R o (optLine x (fun j => kq ++ Strip.stripLineBreaks j)) = optEff x (payloadEff key) := by
+  cases x with
+  | none => rfl
+  | some j => exact R_payloadJ o key kq j hkq hk (joinSafe_of_payloadOk j h)
+
 theorem R_optNum (o : OutOracle) (key kq : Bytes) (x : Option Nat) (hkq : kq = key ++ [61]) (hk : key ∈ numKeys)
     (h : optOk x inU32 = true) :
     R o (optLine x (fun v => kq ++ utoa v)) = optEff x (numEff key) := by
@@ -966,23 +987,21 @@ theorem R_optNum (o : OutOracle) (key kq : Bytes) (x : Option Nat) (hkq : kq = k
   | none => rfl
   | some n => exact R_numLine o key kq n hkq hk h
 
-/-- one message: the reader of the produced lines returns exactly what the message carries, in order -/
-theorem msg_sound (o : OutOracle) (m : OutMsg) (h : inDomainMsg o m = true) (hf : flatMsg m = true) (hpf : ∀ t, o.parseF t = t) :
+/-- one message of the domain (every payload valid UTF-8, any line structure): the reader of the produced lines returns
+exactly what the message carries, in order -/
+theorem msg_sound_full (o : OutOracle) (m : OutMsg) (h : inDomainMsg o m = true) (hpf : ∀ t, o.parseF t = t) :
     R o (encMsgRaw o m) = effectsOfOut o m := by
   unfold inDomainMsg at h
   simp only [Bool.and_eq_true] at h
-  obtain ⟨⟨⟨⟨⟨⟨⟨⟨⟨⟨⟨⟨⟨⟨⟨⟨⟨⟨⟨_, hmap⟩, _⟩, hpi⟩, _⟩, _⟩, _⟩, _⟩, hnet⟩, hst⟩, hhb⟩, hdg⟩, hconn⟩, hrts⟩, _⟩, _⟩, henv⟩, hsys⟩, hev⟩, hreg⟩ := h
-  unfold flatMsg at hf
-  simp only [Bool.and_eq_true] at hf
-  obtain ⟨⟨⟨⟨⟨ftopo, fburn⟩, fcal⟩, fdcal⟩, ferr⟩, fmsg⟩ := hf
+  obtain ⟨⟨⟨⟨⟨⟨⟨⟨⟨⟨⟨⟨⟨⟨⟨⟨⟨⟨⟨_, hmap⟩, _⟩, hpi⟩, ftopo⟩, fburn⟩, fcal⟩, fdcal⟩, hnet⟩, hst⟩, hhb⟩, hdg⟩, hconn⟩, hrts⟩, ferr⟩, fmsg⟩, henv⟩, hsys⟩, hev⟩, hreg⟩ := h
   unfold encMsgRaw effectsOfOut
   simp only [R_append]
   rw [R_flow, R_map o _ hmap, R_events o _ hev, R_registers o _ hreg,
-    R_optPayload o (asc "_burninProfile") kBurnin _ (by decide) (by decide) fburn,
-    R_optPayload o (asc "_calibrationProfile") kCalib _ (by decide) (by decide) fcal,
-    R_optPayload o (asc "_defaultCalibrationProfile") kDefCalib _ (by decide) (by decide) fdcal,
-    R_optPayload o (asc "ErrorMsg") kErrorMsg _ (by decide) (by decide) ferr,
-    R_optPayload o (asc "Msg") kMsg _ (by decide) (by decide) fmsg,
+    R_optPayloadU o (asc "_burninProfile") kBurnin _ (by decide) (by decide) fburn,
+    R_optPayloadU o (asc "_calibrationProfile") kCalib _ (by decide) (by decide) fcal,
+    R_optPayloadU o (asc "_defaultCalibrationProfile") kDefCalib _ (by decide) (by decide) fdcal,
+    R_optPayloadU o (asc "ErrorMsg") kErrorMsg _ (by decide) (by decide) ferr,
+    R_optPayloadU o (asc "Msg") kMsg _ (by decide) (by decide) fmsg,
     R_optNum o (asc "_sleepTimer") kSleepTimer _ (by decide) (by decide) hst,
     R_optNum o (asc "_heartBeatTimer") kHeartBeat _ (by decide) (by decide) hhb,
     R_optNum o (asc "DimmedGain") kDimmedGain _ (by decide) (by decide) hdg]
@@ -1000,7 +1019,7 @@ theorem msg_sound (o : OutOracle) (m : OutMsg) (h : inDomainMsg o m = true) (hf 
       simp only [optLines, optEff, topologyLines]
       rw [show [kSvgbase ++ Strip.stripLineBreaksSvg t.svgbase, kTopoHWC ++ Strip.stripLineBreaks t.json] =
         [kSvgbase ++ Strip.stripLineBreaksSvg t.svgbase] ++ [kTopoHWC ++ Strip.stripLineBreaks t.json] from rfl, R_append,
-        R_svg2 o _ ftopo.1, R_payload2 o (asc "_panelTopology_HWC") kTopoHWC _ (by decide) (by decide) ftopo.2]
+        R_svgAll o _, R_payloadJ o (asc "_panelTopology_HWC") kTopoHWC _ (by decide) (by decide) (joinSafe_of_payloadOk _ ftopo.2)]
   have e_net : R o (optLine m.netConfig (fun c => kNetCfg ++ o.jsonOfNet c)) =
       optEff m.netConfig (fun c => [.info (asc "_networkConfig") (.net c)]) := by
     cases hx : m.netConfig with
@@ -1037,6 +1056,10 @@ theorem msg_sound (o : OutOracle) (m : OutMsg) (h : inDomainMsg o m = true) (hf 
     | none => rfl
     | some s => rw [hx] at hsys; exact R_sysStat o s hsys hpf
   rw [e_pi, e_topo, e_net, e_ss, e_conn, e_rts, e_env, e_sys]
+
+/-- the earlier statement (extra hypothesis `flatMsg`, now superfluous) -/
+theorem msg_sound (o : OutOracle) (m : OutMsg) (h : inDomainMsg o m = true) (_hf : flatMsg m = true) (hpf : ∀ t, o.parseF t = t) :
+    R o (encMsgRaw o m) = effectsOfOut o m := msg_sound_full o m h hpf
 
 theorem sameMsg_refl (e : List Effect) : sameMsg e e = true := by
   unfold sameMsg
